@@ -2,7 +2,7 @@
     two_val_model_counts_logic (counting-guided, heuristics a and b) and nogood_internal
     (nogood learning, heuristics of lib/src/adf/heuristics.rs).  No proofs in this file. *)
 From Coq Require Import NArith List Bool.
-From ADF Require Import Base.Maps Spec.Spec Bdd.Store Adf.Iter Adf.Native Adf.NoGood.
+From ADF Require Import Base.Maps Spec.Spec Gen.GenLeaf Gen.GenFlags Bdd.Store Adf.Iter Adf.Native Adf.NoGood.
 Import ListNotations.
 Local Open Scope N_scope.
 
@@ -12,7 +12,7 @@ Notation "'do' p <- e ; k" := (obind e (fun p => k))
 (** ModelCounts::minimum / more_models on a pair (cmodels, models).
     [more_models] is the body found in lib/src/datatypes/bdd.rs; Gen/GenLeaf.v regenerates it from the source. *)
 Definition mc_minimum (p : N * N) : N := N.min (snd p) (fst p).
-Definition mc_more_models (p : N * N) : bool := mc_minimum p <=? snd p.
+Definition mc_more_models (p : N * N) : bool := g_more_models p.   (* regenerated from the source *)
 Definition paths_ro (c : cfg) (st : store) (t : N) : N * N := snd (paths c st t true).
 
 Definition cmp_then (a b : comparison) : comparison := match a with Eq => b | _ => a end.
@@ -318,3 +318,8 @@ Section NgSearch.
     do (s2, fin) <- ng_loop budget s1 (mkNG g (ngs_new (length ac)) [] [] false false [] draws);
     Some (s2, rev (g_out fin)).
 End NgSearch.
+
+(** the searches as the current source has them (flags regenerated by tools/translate.py) *)
+Definition stable_count_cur (c : cfg) heu (ac : list N) := stable_count c heu ac g_count_stop_on_err.
+Definition nogood_search_cur (c : cfg) (ac : list N) (h : heuristic) (two : bool) :=
+  nogood_search c ac h g_rand_filtered two.
